@@ -68,8 +68,15 @@ def flt(q) -> str:
     return repr(float(q))
 
 
+# constants every tweezer-level spec defines (two of them zero: a present constant whose value is falsy)
+INT_CONSTS = {"n0": 0, "n2": 2}
+FLOAT_CONSTS = {"f0": Fraction(0), "fh": Fraction(1, 2)}
+
+
 def src_int(e) -> str:
     k = e[0]
+    if k == "ic":
+        return f'spec.get_int_constant(constant_id="{e[1]}")'
     if k == "i":
         return str(e[1]) if e[1] >= 0 else f"({e[1]})"
     if k == "v":
@@ -82,6 +89,8 @@ def src_int(e) -> str:
 
 
 def src_float(e) -> str:
+    if e[0] == "fc":
+        return f'spec.get_float_constant(constant_id="{e[1]}")'
     if e[0] == "f":
         return flt(e[1])
     if e[0] == "imulf":
@@ -221,6 +230,8 @@ class KernelError(Exception):
 
 def ev_int(e, env) -> int:
     k = e[0]
+    if k == "ic":
+        return INT_CONSTS[e[1]]
     if k == "i":
         return e[1]
     if k == "v":
@@ -233,6 +244,8 @@ def ev_int(e, env) -> int:
 
 
 def ev_float(e, env) -> Fraction:
+    if e[0] == "fc":
+        return FLOAT_CONSTS[e[1]]
     if e[0] == "f":
         return Fraction(e[1])
     if e[0] == "imulf":
@@ -431,6 +444,10 @@ class Gen:
 
     def int_expr(self, ivars, lo=0, hi=3):
         r = self.rng.random()
+        if r > 0.93:
+            ok = [n for n, v in INT_CONSTS.items() if lo <= v <= hi]
+            if ok:
+                return ("ic", self.rng.choice(ok))
         if ivars and r < 0.35:
             return ("v", self.rng.choice(ivars))
         if ivars and r < 0.45:
@@ -438,6 +455,8 @@ class Gen:
         return ("i", self.rng.randrange(lo, hi + 1))
 
     def float_expr(self, ivars):
+        if self.rng.random() < 0.1:
+            return ("fc", self.rng.choice(sorted(FLOAT_CONSTS)))
         if ivars and self.rng.random() < 0.4:
             return ("imulf", ("v", self.rng.choice(ivars)), self.q())
         return ("f", self.q())
@@ -679,7 +698,7 @@ def default_spec():
     # special grids: "left" also names a static trap zone (another grid), "park" does not
     layout = Layout({"traps": traps, "left": left}, {"traps"}, {"traps"}, {"traps"},
                     special_grid={"left": traps.get_view([1, 3], [0, 1, 2]), "park": Grid.from_positions([-3.0, -1.0], [1.0, 2.0])})
-    return ArchSpec(layout=layout)
+    return ArchSpec(layout=layout, int_constants=dict(INT_CONSTS), float_constants={k: float(v) for k, v in FLOAT_CONSTS.items()})
 
 
 def zone_wire(z):
@@ -705,7 +724,7 @@ def spec_tables(spec):
 
 
 class TraceCase:
-    __slots__ = ("kernels", "wire_args", "source", "ops", "req", "kernel_error", "impl", "path", "mt", "rargs", "shared_impl")
+    __slots__ = ("kernels", "wire_args", "source", "ops", "req", "kernel_error", "impl", "path", "mt", "rargs", "shared_impl", "kw_impl")
 
     def as_case(self):
         return {"kernels": self.kernels, "args": self.wire_args, "source": self.source[len(PRELUDE):],
@@ -765,6 +784,17 @@ def trace_program(ctx, spec, traps, kernels, arg_sets, tracer=None, opts=""):
                 # the tracer returned something that is no path of grids and switches: not the same as raising
                 tc.impl = f"ok <uncanonical path: {type(e).__name__}: {repr(tc.path)[:200]}>"
                 tc.path = None
+        # the same call with every argument given by keyword
+        tc.kw_impl = None
+        if tracer is None and main["params"]:
+            try:
+                pk = TraceInterpreter(spec).run_trace(mt, (), dict(zip([p_[0] for p_ in main["params"]], tc.rargs)))
+                try:
+                    tc.kw_impl = "ok " + canon_path(pk)
+                except Exception as e:  # noqa: BLE001
+                    tc.kw_impl = f"ok <uncanonical path: {type(e).__name__}>"
+            except Exception:  # noqa: BLE001
+                tc.kw_impl = "err"
         # the same trace on one long-lived instance that has seen every earlier kernel of this run (failing ones included)
         tc.shared_impl = None
         if tracer is None:
@@ -871,6 +901,20 @@ CORPUS = [
                                                           ("move", ("shift", ("gv", "g"), ("f", 1), ("f", 1))),
                                                           ("move", ("shift", ("gv", "g"), ("f", -1), ("f", 2))), ("move", ("gv", "g"))]}],
      "args": [("from", [5], [0, 1])]},
+    # constants of the spec, two of them zero (a present constant whose value is falsy)
+    {"kernels": [{"name": "main", "params": [G], "body": [("set", ("gv", "g")), ("turn", True, ("ALL",), ("ALL",)),
+                                                          ("move", ("shift", ("gv", "g"), ("fc", "f0"), ("fc", "fh"))),
+                                                          ("move", ("shift", ("gv", "g"), ("imulf", ("ic", "n2"), Fraction(1, 2)), ("fc", "f0"))),
+                                                          ("move", ("shift", ("gv", "g"), ("imulf", ("ic", "n0"), Fraction(3)), ("f", 1))),
+                                                          ("turn", False, ("ALL",), ("ALL",))]}],
+     "args": [("from", [0, 1], [0, 1])]},
+    # after a set_loc to a grid of another shape, a move to a grid of the FIRST shape is a shape error (the shape that counts is
+    # the current one)
+    {"kernels": [{"name": "main", "params": [G], "body": [("set", ("gv", "g")), ("turn", True, ("ALL",), ("ALL",)),
+                                                          ("move", ("shift", ("gv", "g"), ("f", 1), ("f", 0))),
+                                                          ("turn", False, ("ALL",), ("ALL",)),
+                                                          ("set", ("from", [0, 1, 2], [5])), ("move", ("gv", "g"))]}],
+     "args": [("from", [0, 1], [0, 1])]},
     # lookups of both kinds under one name: "left" is a static trap zone AND (another grid) a special grid; "park" is special only
     {"kernels": [{"name": "main", "params": [G], "body": [("set", ("special", "left")), ("turn", True, ("ALL",), ("ALL",)),
                                                           ("move", ("shift", ("special", "left"), ("f", 1), ("f", 0))),
